@@ -676,6 +676,12 @@ impl<'a> EbpfVmMbuff<'a> {
         Ok(())
     }
 
+    /// Verification hook: textual Cranelift IR of the compiled program, if any.
+    #[cfg(all(rbpf_verif, feature = "cranelift"))]
+    pub fn verif_clif_ir(&self) -> Option<&str> {
+        self.cranelift_prog.as_ref().map(|p| p.verif_ir())
+    }
+
     /// Execute the previously compiled program, with the given packet data and metadata
     /// buffer, in a manner very similar to `execute_program()`.
     ///
@@ -1312,6 +1318,12 @@ impl<'a> EbpfVmFixedMbuff<'a> {
         Ok(())
     }
 
+    /// Verification hook: textual Cranelift IR of the compiled program, if any.
+    #[cfg(all(rbpf_verif, feature = "cranelift"))]
+    pub fn verif_clif_ir(&self) -> Option<&str> {
+        self.parent.verif_clif_ir()
+    }
+
     /// Execute the previously compiled program, with the given packet data and metadata
     /// buffer, in a manner very similar to `execute_program()`.
     ///
@@ -1812,6 +1824,12 @@ impl<'a> EbpfVmRaw<'a> {
         Ok(())
     }
 
+    /// Verification hook: textual Cranelift IR of the compiled program, if any.
+    #[cfg(all(rbpf_verif, feature = "cranelift"))]
+    pub fn verif_clif_ir(&self) -> Option<&str> {
+        self.parent.verif_clif_ir()
+    }
+
     /// Execute the previously compiled program, with the given packet data, in a manner very
     /// similar to `execute_program()`.
     ///
@@ -2218,6 +2236,12 @@ impl<'a> EbpfVmNoData<'a> {
     #[cfg(feature = "cranelift")]
     pub fn cranelift_compile(&mut self) -> Result<(), Error> {
         self.parent.cranelift_compile()
+    }
+
+    /// Verification hook: textual Cranelift IR of the compiled program, if any.
+    #[cfg(all(rbpf_verif, feature = "cranelift"))]
+    pub fn verif_clif_ir(&self) -> Option<&str> {
+        self.parent.verif_clif_ir()
     }
 
     /// Execute the previously JIT-compiled program, without providing pointers to any memory area
